@@ -437,6 +437,11 @@ def exhaustive_orders(ctx, geom, D, max_types, spatial, lead):
                 b = plan(kb, D, torus, tb, len(lead), rng)
                 for op in ("add", "sub"):
                     run_case(ctx, geom, {"op": op, "a": a, "b": b}, sample=(count in (7, 300) and op == "add"))
+                if pb == perms[0]:
+                    # scalar multiple / quotient of every insertion order, one order after the other in the same
+                    # process (a result must not depend on which order of the same types was seen before)
+                    run_case(ctx, geom, {"op": "mul", "a": a, "s": [[2, 1], [-3, 1], [1, 2]][count % 3]})
+                    run_case(ctx, geom, {"op": "div", "a": a, "s": [[2, 1], [-4, 1], [1, 2]][count % 3]})
                 # equality across orders: same values, other order; and a perturbed one
                 tb2 = targets(D, pb, lead, spatial, True, 1000, 1)
                 if count % 2 == 0:
@@ -553,7 +558,8 @@ def run(ctx: Ctx):
     ctx.rule = (
         "Every case = (operation, history of a, history of b). Exhaustive stream: every ordered pair of "
         "insertion orders of both operands for 1..4 types (1+4+36+576 pairs; thorough also d=3) with "
-        "equal-sized blocks (so a wrong pairing raises nothing), for a+b, a-b and a==b, histories rotating "
+        "equal-sized blocks (so a wrong pairing raises nothing), for a+b, a-b and a==b (and a*s, a/s for every insertion "
+        "order of a, consecutively in one process), histories rotating "
         "over {constructor, append, pytree flatten, tree_map, copy, from_vector, setitem, concat, split append, mixed}. "
         "Random stream: d in {2,3}, 0-2 leading axes, non-square shapes, 1-4 types out of 6, histories "
         "incl. jit / vmap round trips, operations add/sub/mul/div/eq (some under jit). Malformed stream: "
